@@ -91,6 +91,8 @@ def transform_checks(chk, rng, c, found):
             continue
         sc = max(float(A.maxabs(J)) * m, 1e-300)
         st = stable(name, p, J, call(name, p, J, "f64"))
+        if name == "MGDA" and A.mgda_has_tie(J, p["epsilon"], p["max_iters"]):
+            st = False
         if not st:
             chk.note("skipped_unstable_" + name)
             continue
@@ -257,7 +259,7 @@ def run(chk):
         JQ = roundf(A.matmul(c["J"], Q), "f32")
         if c["name"] == "MGDA":
             c["params"]["max_iters"] = min(c["params"]["max_iters"], 5)
-        if R.well_conditioned(JQ, c["name"]):
+        if R.well_conditioned(JQ, c["name"], c["params"]):
             corr.append({"name": c["name"], "params": c["params"], "J": JQ, "cat": c["cat"] + "+Q"})
     corr = [c for c in corr if not (c["name"] == "Krum" and not __import__("props.c16", fromlist=["x"]).krum_gap_ok(
         c["J"], c["params"]["f"], c["params"]["k"]))]
